@@ -280,19 +280,21 @@ Section V2.
                      && negb (has_event (e_id p) control)) full.
 
   (* ---------- mainline ---------- *)
-  Definition power_auths (authmap : list event) (e : event) : list event :=
-    filter is_power (lookup_ids authmap (e_auth e)).
-
-  (* createPowerLevelMainline: the visit order of iter (every visit prepends) *)
-  Fixpoint mainline_visits (fuel : nat) (authmap : list event) (e : event) : list event :=
+  (* createPowerLevelMainline (after the F99 repair): the resolved power-levels event, the FIRST
+     power-levels event among its auth events, and so on; [fuel] bounds the length (acyclic: at
+     most |authmap| + 1) *)
+  Fixpoint mainline_chain (fuel : nat) (authmap : list event) (e : event) : list event :=
     match fuel with
     | O => [e]
-    | S f => e :: concat (map (mainline_visits f authmap) (power_auths authmap e))
+    | S f => e :: match first_power authmap (e_auth e) with
+                  | Some p => mainline_chain f authmap p
+                  | None => []
+                  end
     end.
 
   Definition mainline (authmap : list event) (resolved_power : option event) : list event :=
     match resolved_power with
-    | Some p => rev (mainline_visits (S (length authmap)) authmap p)
+    | Some p => rev (mainline_chain (length authmap) authmap p)
     | None => []
     end.
 
@@ -310,30 +312,23 @@ Section V2.
     | (k', p) :: r => if bytes_eqb k k' then Some p else pos_lookup k r
     end.
 
-  (* getFirstPowerLevelMainlineEvent: (position, steps); a hit ends only the innermost loop *)
+  (* getFirstPowerLevelMainlineEvent: (position, steps) - back along the first power-levels auth
+     event of every step until one is on the mainline; none: position 0 *)
   Fixpoint first_mainline (fuel : nat) (authmap : list event) (pos : list (bytes * Z))
-           (e : event) (st : Z * Z) : Z * Z :=
+           (e : event) (steps : Z) : Z * Z :=
     match fuel with
-    | O => st
-    | S f =>
-        (fix loop (auths : list bytes) (st : Z * Z) : Z * Z :=
-           match auths with
-           | [] => st
-           | a :: rest =>
-               match find_event a authmap with
-               | None => loop rest st
-               | Some ae =>
-                   if negb (is_power ae) then loop rest st
-                   else match pos_lookup (e_id ae) pos with
-                        | Some p => (p, snd st)
-                        | None => loop rest (first_mainline f authmap pos ae (fst st, (snd st + 1)%Z))
-                        end
-               end
-           end) (e_auth e) st
+    | O => (0%Z, steps)
+    | S f => match first_power authmap (e_auth e) with
+             | None => (0%Z, steps)
+             | Some p => match pos_lookup (e_id p) pos with
+                         | Some k => (k, steps)
+                         | None => first_mainline f authmap pos p (steps + 1)%Z
+                         end
+             end
     end.
 
   Definition wrap_other (authmap : list event) (pos : list (bytes * Z)) (e : event) : owrap :=
-    let ps := first_mainline (S (length authmap)) authmap pos e (0%Z, 0%Z) in
+    let ps := first_mainline (S (length authmap)) authmap pos e 0%Z in
     mkOw e (fst ps) (snd ps).
 
   (* mainlineOrdering *)
